@@ -28,7 +28,7 @@ import (
 func TestMain(m *testing.M) { rec.Main(m, "C16") }
 
 // ruleMore describes what was added to the exploration in the build phase.
-const ruleMore = "; write faults: prlimit --fsize with an absolute limit or a limit k bytes below the size of the i-th largest file of the package"
+const ruleMore = "; relative paths (the specification in a sub-directory, -out=gen relative to the working directory, a decoy directory next to the specification); a token class with 20992 symbols; write faults: prlimit --fsize with an absolute limit or a limit k bytes below the size of the i-th largest file of the package"
 
 const rule = "configurations: a subset of the flags (-out, -name in both spellings, -debug, -verbose, -help, -version, none) x input class (valid, syntax error, semantic error, invalid pattern, token conflict, LALR conflict, missing file, directory) " +
 	"x pre-existing state of the output location (missing, a file, an empty directory, <name> present as directory / file / symlink to a directory / dangling symlink, target files already present, unrelated files) x name class " +
@@ -50,6 +50,8 @@ var inputs = map[string]string{
 	"keyword":   "grammar func;\nstart = \"a\";\n",
 	"valid3":    bigSpec(),
 	"valid4":    "grammar empty;\nstart = ;\nx = start | ;\n", // an accepted specification without any terminal
+	// a token class with thousands of symbols: very long lines in the emitted transition function
+	"valid5": "grammar wide;\nHAN = /[\\x4E00-\\x9FFF]+/\nstart = { HAN | \"x\" };\n",
 }
 
 // bigSpec is a specification with many keywords: its lexer.go is the largest file of the package.
@@ -140,6 +142,9 @@ type Config struct {
 	// fault hits the last part of that file); resolved against the in-process rendering
 	FsizeFile  int `json:"fsize_file"`
 	FsizeDelta int `json:"fsize_delta"`
+	// Rel: the specification lies in a sub-directory of the working directory and is named by a relative path; -out (if
+	// given) is the relative path "gen". Relative paths are relative to the working directory, as for every tool.
+	Rel bool `json:"rel"`
 }
 
 // renderRef renders the package of a specification in process and returns the directory that holds it.
@@ -191,12 +196,30 @@ func checkConfig(c Config) (summary string, err error) {
 	default:
 		_ = os.WriteFile(inPath, []byte(src), 0o644)
 	}
-	validInput = validInput && (c.Input == "valid" || c.Input == "valid2" || c.Input == "valid3" || c.Input == "valid4" || c.Input == "keyword")
+	argIn := inPath
+	if c.Rel {
+		_ = os.MkdirAll(filepath.Join(work, "specs", "gen"), 0o755) // a decoy: <directory of the specification>/gen
+		rel := filepath.Join("specs", filepath.Base(inPath))
+		switch c.Input {
+		case "missing":
+		case "directory":
+			_ = os.Remove(inPath)
+			_ = os.Mkdir(filepath.Join(work, rel), 0o755)
+		default:
+			_ = os.Rename(inPath, filepath.Join(work, rel))
+		}
+		inPath, argIn = filepath.Join(work, rel), rel
+	}
+	validInput = validInput && (c.Input == "valid" || c.Input == "valid2" || c.Input == "valid3" || c.Input == "valid4" || c.Input == "valid5" || c.Input == "keyword")
 	// output location
 	outDir := work
 	var args []string
 	if c.OutFlag != "" {
 		outDir = filepath.Join(sb, "outroot")
+		argOut := outDir
+		if c.Rel {
+			outDir, argOut = filepath.Join(work, "gen"), "gen"
+		}
 		switch c.OutState {
 		case "dir":
 			_ = os.Mkdir(outDir, 0o755)
@@ -204,9 +227,9 @@ func checkConfig(c Config) (summary string, err error) {
 			_ = os.WriteFile(outDir, []byte("i am a file\n"), 0o644)
 		}
 		if c.OutFlag == "=" {
-			args = append(args, "-out="+outDir)
+			args = append(args, "-out="+argOut)
 		} else {
-			args = append(args, "-out", outDir)
+			args = append(args, "-out", argOut)
 		}
 	}
 	outUsable := c.OutFlag == "" || c.OutState == "dir"
@@ -220,6 +243,8 @@ func checkConfig(c Config) (summary string, err error) {
 		switch c.Input {
 		case "valid", "syntax", "lexical", "semantic", "pattern", "tconflict", "lalr":
 			effective = "calc"
+		case "valid5":
+			effective = "wide"
 		case "valid4":
 			effective = "empty"
 		case "valid3":
@@ -272,7 +297,7 @@ func checkConfig(c Config) (summary string, err error) {
 		wantsHelp = wantsHelp || e == "-help"
 		wantsVersion = wantsVersion || e == "-version"
 	}
-	args = append(args, inPath)
+	args = append(args, argIn)
 	before, err := snapshot(sb)
 	if err != nil {
 		return "", err
@@ -426,7 +451,7 @@ var names = []string{"pkg", "P2", "über", "x_1", "func", "package", "go", "stri
 
 func genConfig(t *rapid.T) Config {
 	c := Config{
-		Input:    rapid.SampledFrom([]string{"valid", "valid", "valid3", "valid3", "valid2", "valid4", "syntax", "lexical", "semantic", "pattern", "tconflict", "lalr", "keyword", "missing", "directory"}).Draw(t, "input"),
+		Input:    rapid.SampledFrom([]string{"valid", "valid", "valid3", "valid3", "valid2", "valid4", "valid5", "syntax", "lexical", "semantic", "pattern", "tconflict", "lalr", "keyword", "missing", "directory"}).Draw(t, "input"),
 		OutFlag:  rapid.SampledFrom([]string{"", "=", " ", "="}).Draw(t, "outFlag"),
 		OutState: rapid.SampledFrom([]string{"dir", "dir", "dir", "missing", "file"}).Draw(t, "outState"),
 		Pre:      rapid.SampledFrom([]string{"none", "none", "dir", "dirwithfiles", "file", "symlinkdir", "dangling", "unrelated"}).Draw(t, "pre"),
@@ -459,6 +484,7 @@ func genConfig(t *rapid.T) Config {
 			c.FsizeDelta = rapid.SampledFrom([]int{1, 2, 17, 100, 1000, 4095, 4096, 4097}).Draw(t, "fsizeDelta")
 		}
 	}
+	c.Rel = rapid.IntRange(0, 3).Draw(t, "relativePaths") == 0
 	switch rapid.IntRange(0, 14).Draw(t, "info") {
 	case 0:
 		c.Extra = append(c.Extra, "-help")
@@ -487,6 +513,9 @@ func TestConfigurations(t *testing.T) {
 		}
 		if c.FsizeDelta > 0 {
 			cls = append(cls, "write_fault_in_last_part_of_a_file")
+		}
+		if c.Rel {
+			cls = append(cls, "relative_paths_specification_elsewhere")
 		}
 		rec.Case(c.String(), nt, cls...)
 		rec.Sample(c.Input+"/"+c.Pre, c)
